@@ -442,6 +442,14 @@ def _gen_fit_case(rng, kind=None):
         c['ia'] = ia
         if rng.random() < 0.8:
             c['inputans'] = [c0[k] if rng.random() < 0.5 else rng.uniform(-3, 3) for k in range(ncoeff)]
+            fixed = [k for k in range(ncoeff) if not ia[k]]
+            if len(fixed) >= 2 and rng.random() < 0.3:
+                # prescribed values that cancel in a sum (+v, -v, the others 0) are prescribed values all the same
+                v = rng.choice([1.5, 2.0, 0.25, rng.uniform(0.5, 3)])
+                for k in fixed:
+                    c['inputans'][k] = 0.0
+                a, b = rng.sample(fixed, 2)
+                c['inputans'][a], c['inputans'][b] = v, -v
     if rng.random() < 0.15:
         c['inputfunc'] = [rng.uniform(0.5, 2.0) for _ in range(n)]
     return c
